@@ -1,12 +1,999 @@
-//! C17: harness not built yet.
+//! C17: headers, onboarding payloads and discovery records decode what was encoded.
+//!
+//! One sub-stream per codec; the case kind is the codec name. Every op is self-contained text:
+//!   `rt <fields…>`   structure -> REAL encoder -> bytes; REAL decoder on those bytes
+//!                    output: `<bytes hex> <decoder result>`
+//!   `dec <hex>`      REAL decoder on an arbitrary / mutated byte (or UTF-8) string
+//!                    output: `<decoder result>`
+//! Decoder results are canonical: `ok <fields…>`, `err <ErrorCode>`, `none`, `panic`.
+//! Everything that touches the code under test runs under `catch_unwind`.
+use crate::proto::{hex, parse_cases, unhex, Case, Out};
+use crate::rng::Rng;
 use crate::Args;
 
-pub fn gen(_a: &Args) -> String {
-    eprintln!("C17: harness not built yet");
-    std::process::exit(2);
+use std::panic::{catch_unwind, AssertUnwindSafe};
+
+#[path = "c17_more.rs"]
+mod more;
+#[path = "c17_unproved.rs"]
+mod unproved;
+
+/// where the last panic happened (recorded by the hook installed in `install_hook`)
+pub static LAST_PANIC: std::sync::Mutex<String> = std::sync::Mutex::new(String::new());
+
+pub fn install_hook() {
+    std::panic::set_hook(Box::new(|info| {
+        let loc = info.location().map(|l| format!("{}:{}", l.file(), l.line())).unwrap_or_default();
+        let msg = if let Some(s) = info.payload().downcast_ref::<&str>() {
+            s.to_string()
+        } else if let Some(s) = info.payload().downcast_ref::<String>() {
+            s.clone()
+        } else {
+            String::new()
+        };
+        if let Ok(mut g) = LAST_PANIC.lock() {
+            *g = format!("{} {}", loc, msg.replace('\n', " "));
+        }
+    }));
 }
 
-pub fn replay(_a: &Args) -> String {
-    eprintln!("C17: harness not built yet");
-    std::process::exit(2);
+pub fn guard<F: FnOnce() -> String>(f: F) -> String {
+    match catch_unwind(AssertUnwindSafe(f)) {
+        Ok(s) => s,
+        Err(_) => "panic".to_string(),
+    }
+}
+
+pub fn errname(e: &rs_matter::error::Error) -> String {
+    format!("err {:?}", e.code())
+}
+
+pub fn num(s: Option<&str>) -> u64 {
+    s.and_then(|x| x.parse().ok()).unwrap_or(0)
+}
+
+pub fn opt(v: Option<u64>) -> String {
+    match v {
+        Some(x) => x.to_string(),
+        None => "-".to_string(),
+    }
+}
+
+// ------------------------------------------------------------------ base38
+
+mod b38 {
+    use super::*;
+    use rs_matter::utils::codec::base38;
+
+    pub fn enc(bytes: &[u8]) -> String {
+        guard(|| match base38::encode_string::<4096>(bytes) {
+            Ok(s) => hex(s.as_bytes()),
+            Err(e) => errname(&e),
+        })
+    }
+
+    /// iterate `decode()`: bytes yielded before the first error, then the error
+    pub fn dec(s: &str) -> String {
+        guard(|| {
+            let mut v: Vec<u8> = Vec::new();
+            let mut err: Option<String> = None;
+            for (i, b) in base38::decode(s).enumerate() {
+                if i > s.len() + 8 {
+                    err = Some("err Endless".into());
+                    break;
+                }
+                match b {
+                    Ok(b) => v.push(b),
+                    Err(e) => {
+                        err = Some(errname(&e));
+                        break;
+                    }
+                }
+            }
+            // the collecting front-end must agree with the iterator
+            let dv = base38::decode_vec::<4096>(s);
+            let dvs = match &dv {
+                Ok(x) => format!("ok {}", hex(x)),
+                Err(e) => errname(e),
+            };
+            match err {
+                None => {
+                    if dvs != format!("ok {}", hex(&v)) {
+                        return format!("mismatch iter=ok:{} vec={}", hex(&v), dvs.replace(' ', ":"));
+                    }
+                    format!("ok {}", hex(&v))
+                }
+                Some(e) => {
+                    if dvs != e {
+                        return format!("mismatch iter={} vec={}", e.replace(' ', ":"), dvs.replace(' ', ":"));
+                    }
+                    format!("{} {}", e, hex(&v))
+                }
+            }
+        })
+    }
+
+    pub fn run(op: &str) -> String {
+        let mut it = op.split_whitespace();
+        match it.next() {
+            Some("rt") => {
+                let bytes = unhex(it.next().unwrap_or("-"));
+                let e = enc(&bytes);
+                if e == "panic" || e.starts_with("err") {
+                    return e;
+                }
+                let s = String::from_utf8(unhex(&e)).unwrap_or_default();
+                format!("{} {}", e, dec(&s))
+            }
+            Some("dec") => match String::from_utf8(unhex(it.next().unwrap_or("-"))) {
+                Ok(s) => dec(&s),
+                Err(_) => "notutf8".into(),
+            },
+            _ => "badop".into(),
+        }
+    }
+}
+
+// ------------------------------------------------------------------ manual pairing code
+
+mod manual {
+    use super::*;
+    use rs_matter::pairing::qr::QrPayload;
+    use rs_matter::BasicCommData;
+
+    pub fn enc(disc: u16, pw: u32) -> String {
+        guard(|| {
+            let cd = BasicCommData { password: pw.to_le_bytes().into(), discriminator: disc };
+            let code = cd.compute_pairing_code();
+            let pretty = cd.compute_pretty_pairing_code();
+            let stripped: String = pretty.chars().filter(|c| *c != '-').collect();
+            if stripped != code.as_str() {
+                return "prettymismatch".into();
+            }
+            hex(code.as_bytes())
+        })
+    }
+
+    pub fn dec(s: &str) -> String {
+        guard(|| match QrPayload::parse_pairing_code(s) {
+            Ok(p) => {
+                let (vid, pid, long) = match p.vid_pid() {
+                    Some((v, q)) => (v, q, 1),
+                    None => (0, 0, 0),
+                };
+                format!("ok {} {} {} {} {}", p.short_discriminator(), p.passcode(), vid, pid, long)
+            }
+            Err(e) => errname(&e),
+        })
+    }
+
+    pub fn run(op: &str) -> String {
+        let mut it = op.split_whitespace();
+        match it.next() {
+            Some("rt") => {
+                let disc = num(it.next()) as u16;
+                let pw = num(it.next()) as u32;
+                let e = enc(disc, pw);
+                if e == "panic" || e == "prettymismatch" {
+                    return e;
+                }
+                let s = String::from_utf8(unhex(&e)).unwrap_or_default();
+                format!("{} {}", e, dec(&s))
+            }
+            Some("dec") => match String::from_utf8(unhex(it.next().unwrap_or("-"))) {
+                Ok(s) => dec(&s),
+                Err(_) => "notutf8".into(),
+            },
+            _ => "badop".into(),
+        }
+    }
+}
+
+// ------------------------------------------------------------------ plain header
+
+mod plain {
+    use super::*;
+    use rs_matter::transport::plain_hdr::PlainHdr;
+    use rs_matter::utils::storage::{ParseBuf, WriteBuf};
+
+    pub fn enc(h: &PlainHdr, cap: usize) -> String {
+        guard(|| {
+            let mut buf = vec![0u8; cap];
+            let mut wb = WriteBuf::new(&mut buf);
+            match h.encode(&mut wb) {
+                Ok(()) => hex(wb.as_slice()),
+                Err(e) => errname(&e),
+            }
+        })
+    }
+
+    pub fn dec(bytes: &[u8]) -> String {
+        guard(|| {
+            let mut b = bytes.to_vec();
+            let mut pb = ParseBuf::new(&mut b);
+            let mut h = PlainHdr::default();
+            match h.decode(&mut pb) {
+                Ok(()) => {
+                    let (f, sid, sf, ctr, _src, _dst) = h.verif_raw();
+                    format!(
+                        "ok {} {} {} {} {} {} {} {}",
+                        f,
+                        sid,
+                        sf,
+                        ctr,
+                        opt(h.get_src_nodeid()),
+                        opt(h.get_dst_unicast_nodeid()),
+                        opt(h.get_dst_groupcast_nodeid().map(|x| x as u64)),
+                        hex(pb.as_slice())
+                    )
+                }
+                Err(e) => errname(&e),
+            }
+        })
+    }
+
+    pub fn run(op: &str) -> String {
+        let mut it = op.split_whitespace();
+        match it.next() {
+            Some("rt") => {
+                let f = num(it.next()) as u8;
+                let sid = num(it.next()) as u16;
+                let sf = num(it.next()) as u8;
+                let ctr = num(it.next()) as u32;
+                let src = num(it.next());
+                let dst = num(it.next());
+                let extra = unhex(it.next().unwrap_or("-"));
+                let cap = it.next().map(|x| num(Some(x)) as usize).unwrap_or(64);
+                let h = match PlainHdr::verif_from_raw(f, sid, sf, ctr, src, dst) {
+                    Some(h) => h,
+                    None => return "badflags".into(),
+                };
+                let e = enc(&h, cap);
+                if e == "panic" || e.starts_with("err") {
+                    return e;
+                }
+                let mut bytes = unhex(&e);
+                bytes.extend_from_slice(&extra);
+                format!("{} {}", e, dec(&bytes))
+            }
+            Some("set") => {
+                // through the public setters: src (or -), u|g|n, dst
+                let src = it.next().unwrap_or("-");
+                let kind = it.next().unwrap_or("n");
+                let dst = num(it.next());
+                let mut h = PlainHdr::default();
+                // apply some churn first so that the "absent => 0" guarantee of the setters is exercised
+                h.set_src_nodeid(Some(0xdead_beef));
+                h.set_dst_unicast_nodeid(Some(0x1234_5678_9abc));
+                h.set_src_nodeid(if src == "-" { None } else { src.parse().ok() });
+                match kind {
+                    "u" => h.set_dst_unicast_nodeid(Some(dst)),
+                    "g" => h.set_dst_groupcast_nodeid(Some(dst as u16)),
+                    _ => h.set_dst_unicast_nodeid(None),
+                }
+                let (f, sid, sf, ctr, s, d) = h.verif_raw();
+                let e = enc(&h, 64);
+                if e == "panic" || e.starts_with("err") {
+                    return e;
+                }
+                format!("{} {} {} {} {} {} {} {}", f, sid, sf, ctr, s, d, e, dec(&unhex(&e)))
+            }
+            Some("dec") => dec(&unhex(it.next().unwrap_or("-"))),
+            _ => "badop".into(),
+        }
+    }
+}
+
+// ------------------------------------------------------------------ proto header
+
+mod protoh {
+    use super::*;
+    use rs_matter::crypto::test_only_crypto;
+    use rs_matter::transport::plain_hdr::PlainHdr;
+    use rs_matter::transport::proto_hdr::ProtoHdr;
+    use rs_matter::utils::storage::{ParseBuf, WriteBuf};
+
+    pub fn enc(h: &ProtoHdr, cap: usize) -> String {
+        guard(|| {
+            let mut buf = vec![0u8; cap];
+            let mut wb = WriteBuf::new(&mut buf);
+            match h.encode(&mut wb) {
+                Ok(()) => hex(wb.as_slice()),
+                Err(e) => errname(&e),
+            }
+        })
+    }
+
+    pub fn dec(bytes: &[u8]) -> String {
+        guard(|| {
+            let mut b = bytes.to_vec();
+            let mut pb = ParseBuf::new(&mut b);
+            let mut h = ProtoHdr::new();
+            let plain = PlainHdr::default();
+            match h.decrypt_and_decode(test_only_crypto(), None, 0, &plain, &mut pb) {
+                Ok(()) => {
+                    let (eid, f, pid, op, _v, _a) = h.verif_raw();
+                    format!(
+                        "ok {} {} {} {} {} {} {}",
+                        eid,
+                        f,
+                        pid,
+                        op,
+                        opt(h.get_vendor().map(|x| x as u64)),
+                        opt(h.get_ack().map(|x| x as u64)),
+                        hex(pb.as_slice())
+                    )
+                }
+                Err(e) => errname(&e),
+            }
+        })
+    }
+
+    pub fn run(op: &str) -> String {
+        let mut it = op.split_whitespace();
+        match it.next() {
+            Some("rt") => {
+                let eid = num(it.next()) as u16;
+                let f = num(it.next()) as u8;
+                let pid = num(it.next()) as u16;
+                let opc = num(it.next()) as u8;
+                let ven = num(it.next()) as u16;
+                let ack = num(it.next()) as u32;
+                let extra = unhex(it.next().unwrap_or("-"));
+                let cap = it.next().map(|x| num(Some(x)) as usize).unwrap_or(64);
+                let h = match ProtoHdr::verif_from_raw(eid, f, pid, opc, ven, ack) {
+                    Some(h) => h,
+                    None => return "badflags".into(),
+                };
+                let e = enc(&h, cap);
+                if e == "panic" || e.starts_with("err") {
+                    return e;
+                }
+                let mut bytes = unhex(&e);
+                bytes.extend_from_slice(&extra);
+                format!("{} {}", e, dec(&bytes))
+            }
+            Some("dec") => dec(&unhex(it.next().unwrap_or("-"))),
+            _ => "badop".into(),
+        }
+    }
+}
+
+// ------------------------------------------------------------------ status report
+
+mod status {
+    use super::*;
+    use rs_matter::sc::{GeneralCode, StatusReport};
+    use rs_matter::utils::storage::{ReadBuf, WriteBuf};
+
+    fn general(n: u64) -> Option<GeneralCode> {
+        use GeneralCode::*;
+        Some(match n {
+            0 => Success,
+            1 => Failure,
+            2 => BadPrecondition,
+            3 => OutOfRange,
+            4 => BadRequest,
+            5 => Unsupported,
+            6 => Unexpected,
+            7 => ResourceExhausted,
+            8 => Busy,
+            9 => Timeout,
+            10 => Continue,
+            11 => Aborted,
+            12 => InvalidArgument,
+            13 => NotFound,
+            14 => AlreadyExists,
+            15 => PermissionDenied,
+            16 => DataLoss,
+            _ => return None,
+        })
+    }
+
+    pub fn dec(bytes: &[u8]) -> String {
+        guard(|| {
+            let mut rb = ReadBuf::new(bytes);
+            match StatusReport::read(&mut rb) {
+                Ok(r) => format!("ok {} {} {} {}", r.general_code as u16, r.proto_id, r.proto_code, hex(r.proto_data)),
+                Err(e) => errname(&e),
+            }
+        })
+    }
+
+    pub fn run(op: &str) -> String {
+        let mut it = op.split_whitespace();
+        match it.next() {
+            Some("rt") => {
+                let g = match general(num(it.next())) {
+                    Some(g) => g,
+                    None => return "badenum".into(),
+                };
+                let pid = num(it.next()) as u32;
+                let code = num(it.next()) as u16;
+                let data = unhex(it.next().unwrap_or("-"));
+                let cap = it.next().map(|x| num(Some(x)) as usize).unwrap_or(data.len() + 16);
+                let e = guard(|| {
+                    let r = StatusReport { general_code: g, proto_id: pid, proto_code: code, proto_data: &data };
+                    let mut buf = vec![0u8; cap];
+                    let mut wb = WriteBuf::new(&mut buf);
+                    match r.write(&mut wb) {
+                        Ok(()) => hex(wb.as_slice()),
+                        Err(e) => errname(&e),
+                    }
+                });
+                if e == "panic" || e.starts_with("err") {
+                    return e;
+                }
+                format!("{} {}", e, dec(&unhex(&e)))
+            }
+            Some("dec") => dec(&unhex(it.next().unwrap_or("-"))),
+            _ => "badop".into(),
+        }
+    }
+}
+
+// ------------------------------------------------------------------ ParseBuf / WriteBuf cursor arithmetic
+
+mod bufs {
+    use super::*;
+    use rs_matter::utils::storage::{ParseBuf, WriteBuf};
+
+    /// a whole case: `new <hex>` then reads
+    pub fn run_rbuf(out: &mut Out, case: &Case) {
+        let mut data: Vec<u8> = Vec::new();
+        if let Some(first) = case.ops.first() {
+            let mut it = first.split_whitespace();
+            if it.next() == Some("new") {
+                data = unhex(it.next().unwrap_or("-"));
+            }
+        }
+        let mut store = data.clone();
+        let mut pb = ParseBuf::new(&mut store);
+        for (i, op) in case.ops.iter().enumerate() {
+            let mut it = op.split_whitespace();
+            let r = match it.next() {
+                Some("new") if i == 0 => "ok".to_string(),
+                Some("u8") => guard(|| pb.le_u8().map(|x| format!("ok {}", x)).unwrap_or_else(|e| errname(&e))),
+                Some("u16") => guard(|| pb.le_u16().map(|x| format!("ok {}", x)).unwrap_or_else(|e| errname(&e))),
+                Some("u32") => guard(|| pb.le_u32().map(|x| format!("ok {}", x)).unwrap_or_else(|e| errname(&e))),
+                Some("u64") => guard(|| pb.le_u64().map(|x| format!("ok {}", x)).unwrap_or_else(|e| errname(&e))),
+                Some("tail") => {
+                    let n = num(it.next()) as usize;
+                    guard(|| pb.tail(n).map(|x| format!("ok {}", hex(x))).unwrap_or_else(|e| errname(&e)))
+                }
+                Some("slice") => guard(|| format!("ok {}", hex(pb.as_slice()))),
+                _ => "badop".to_string(),
+            };
+            out.op(op, &r);
+        }
+    }
+
+    /// a whole case: `new <n>` then writes
+    pub fn run_wbuf(out: &mut Out, case: &Case) {
+        let mut n = 0usize;
+        if let Some(first) = case.ops.first() {
+            let mut it = first.split_whitespace();
+            if it.next() == Some("new") {
+                n = num(it.next()) as usize;
+            }
+        }
+        let mut store = vec![0u8; n.min(4096)];
+        let mut wb = WriteBuf::new(&mut store);
+        let okerr = |r: Result<(), rs_matter::error::Error>| match r {
+            Ok(()) => "ok".to_string(),
+            Err(e) => errname(&e),
+        };
+        for (i, op) in case.ops.iter().enumerate() {
+            let mut it = op.split_whitespace();
+            let r = match it.next() {
+                Some("new") if i == 0 => "ok".to_string(),
+                Some("reserve") => {
+                    let k = num(it.next()) as usize;
+                    guard(|| okerr(wb.reserve(k)))
+                }
+                Some("u8") => {
+                    let x = num(it.next()) as u8;
+                    guard(|| okerr(wb.le_u8(x)))
+                }
+                Some("u16") => {
+                    let x = num(it.next()) as u16;
+                    guard(|| okerr(wb.le_u16(x)))
+                }
+                Some("u32") => {
+                    let x = num(it.next()) as u32;
+                    guard(|| okerr(wb.le_u32(x)))
+                }
+                Some("u64") => {
+                    let x = num(it.next());
+                    guard(|| okerr(wb.le_u64(x)))
+                }
+                Some("append") => {
+                    let b = unhex(it.next().unwrap_or("-"));
+                    guard(|| okerr(wb.append(&b)))
+                }
+                Some("prepend") => {
+                    let b = unhex(it.next().unwrap_or("-"));
+                    guard(|| okerr(wb.prepend(&b)))
+                }
+                Some("slice") => guard(|| format!("ok {}", hex(wb.as_slice()))),
+                _ => "badop".to_string(),
+            };
+            out.op(op, &r);
+        }
+    }
+}
+
+// ------------------------------------------------------------------ dispatch
+
+pub fn run_op(kind: &str, op: &str) -> String {
+    match kind {
+        "base38" => b38::run(op),
+        "manual" => manual::run(op),
+        "plainhdr" => plain::run(op),
+        "protohdr" => protoh::run(op),
+        "status" => status::run(op),
+        k => {
+            if let Some(r) = more::run_op(k, op) {
+                r
+            } else if let Some(r) = unproved::run_op(k, op) {
+                r
+            } else {
+                "badkind".into()
+            }
+        }
+    }
+}
+
+fn run_case(out: &mut Out, case: &Case) {
+    out.case(case.id, &case.kind);
+    match case.kind.as_str() {
+        "rbuf" => bufs::run_rbuf(out, case),
+        "wbuf" => bufs::run_wbuf(out, case),
+        k => {
+            for op in &case.ops {
+                let r = run_op(k, op);
+                out.op(op, &r);
+                if r == "panic" || r.ends_with(" panic") {
+                    out.stat(&format!("panic_{}", k), 1);
+                    if let Ok(g) = LAST_PANIC.lock() {
+                        out.buf.push_str(&format!("# panic at {}\n", g));
+                    }
+                }
+            }
+        }
+    }
+}
+
+// ------------------------------------------------------------------ generators
+
+pub fn edge(r: &mut Rng, bits: u32) -> u64 {
+    let max: u64 = if bits >= 64 { u64::MAX } else { (1u64 << bits) - 1 };
+    match r.below(10) {
+        0 => 0,
+        1 => 1,
+        2 => max,
+        3 => max - 1,
+        4 => 1u64 << r.below(bits as u64),
+        5 => (1u64 << r.below(bits as u64)).wrapping_sub(1) & max,
+        6 => r.below(256) & max,
+        _ => r.next() & max,
+    }
+}
+
+/// byte-level mutations of a valid encoding: bit flips, byte substitutions, truncations, extensions
+pub fn mutate(r: &mut Rng, b: &[u8], out: &mut Out) -> Vec<u8> {
+    let mut v = b.to_vec();
+    match r.below(6) {
+        0 if !v.is_empty() => {
+            out.stat("mut_bitflip", 1);
+            let i = r.below(v.len() as u64) as usize;
+            v[i] ^= 1 << r.below(8);
+        }
+        1 if !v.is_empty() => {
+            out.stat("mut_byte", 1);
+            let i = r.below(v.len() as u64) as usize;
+            v[i] = r.next() as u8;
+        }
+        2 if !v.is_empty() => {
+            out.stat("mut_truncate", 1);
+            let n = r.below(v.len() as u64) as usize;
+            v.truncate(n);
+        }
+        3 => {
+            out.stat("mut_extend", 1);
+            let n = r.range(1, 9) as usize;
+            v.extend(r.bytes(n));
+        }
+        4 if v.len() >= 2 => {
+            out.stat("mut_swap", 1);
+            let i = r.below(v.len() as u64 - 1) as usize;
+            v.swap(i, i + 1);
+        }
+        _ => {
+            out.stat("mut_first_byte", 1);
+            if v.is_empty() {
+                v.push(r.next() as u8);
+            } else {
+                v[0] = r.next() as u8;
+            }
+        }
+    }
+    v
+}
+
+fn first_word(s: &str) -> &str {
+    s.split_whitespace().next().unwrap_or("")
+}
+
+/// ops for a `rt` line plus mutations of the bytes it produced
+pub fn rt_and_mutations(r: &mut Rng, kind: &str, rt: String, nmut: usize, out: &mut Out) -> Vec<String> {
+    let res = run_op(kind, &rt);
+    let mut ops = vec![rt];
+    let w = first_word(&res).to_string();
+    if w.len() >= 2 && w.bytes().all(|c| c.is_ascii_hexdigit()) {
+        let bytes = unhex(&w);
+        ops.push(format!("dec {}", hex(&bytes)));
+        for _ in 0..nmut {
+            let m = mutate(r, &bytes, out);
+            ops.push(format!("dec {}", hex(&m)));
+        }
+    }
+    ops
+}
+
+const B38: &[u8] = b"0123456789ABCDEFGHIJKLMNOPQRSTUVWXYZ-.";
+
+fn gen_base38(r: &mut Rng, out: &mut Out) -> Vec<String> {
+    let mut ops = Vec::new();
+    // round trips at all three length classes
+    let n = match r.below(8) {
+        0 => 0,
+        1 => 1,
+        2 => 2,
+        3 => 3,
+        4 => r.range(4, 12),
+        5 => 11,
+        _ => r.range(0, 40),
+    } as usize;
+    let bytes: Vec<u8> = match r.below(5) {
+        0 => vec![0xff; n],
+        1 => vec![0; n],
+        _ => r.bytes(n),
+    };
+    out.stat(&format!("b38_len_mod3_{}", n % 3), 1);
+    ops.push(format!("rt {}", hex(&bytes)));
+    // strings: canonical, non-canonical (value too large), invalid character, bad length class, arbitrary
+    let enc = b38::enc(&bytes);
+    let s = unhex(&enc);
+    for _ in 0..4 {
+        let mut t = s.clone();
+        match r.below(7) {
+            0 if !t.is_empty() => {
+                out.stat("b38_invalid_char", 1);
+                let i = r.below(t.len() as u64) as usize;
+                t[i] = *r.pick(&[b'/', b':', b'@', b' ', b'a', b'z', b'[', b',', 0x7f, b'!', b'_', 44, 91]);
+            }
+            1 => {
+                out.stat("b38_bad_len", 1);
+                let k = *r.pick(&[1usize, 3, 6, 8]);
+                t = (0..k).map(|_| *r.pick(B38)).collect();
+            }
+            2 => {
+                out.stat("b38_big_value", 1);
+                t = b"....".to_vec();
+                if r.chance(1, 2) {
+                    t.push(b'.');
+                }
+                if r.chance(1, 3) {
+                    t = b"..".to_vec();
+                }
+            }
+            3 if !t.is_empty() => {
+                out.stat("b38_valid_char_subst", 1);
+                let i = r.below(t.len() as u64) as usize;
+                t[i] = *r.pick(B38);
+            }
+            4 => {
+                out.stat("b38_random_alphabet", 1);
+                let k = r.range(0, 12) as usize;
+                t = (0..k).map(|_| *r.pick(B38)).collect();
+            }
+            5 => {
+                out.stat("b38_unicode", 1);
+                let mut st = String::from_utf8_lossy(&t).to_string();
+                st.push(*r.pick(&['é', '∞', '\u{0}', '\u{7f}', '😀']));
+                if r.chance(1, 2) {
+                    st.push_str("AB");
+                }
+                t = st.into_bytes();
+            }
+            _ => {
+                out.stat("b38_random_ascii", 1);
+                let k = r.range(0, 11) as usize;
+                t = (0..k).map(|_| r.range(32, 126) as u8).collect();
+            }
+        }
+        ops.push(format!("dec {}", hex(&t)));
+    }
+    ops
+}
+
+fn verhoeff_digit_for(s: &[u8]) -> u8 {
+    // generator-side helper (not an oracle): find the digit that makes the real parser's check pass
+    // is not needed: we only build codes from the real encoder and mutate them.
+    let _ = s;
+    0
+}
+
+fn gen_manual(r: &mut Rng, out: &mut Out) -> Vec<String> {
+    let _ = verhoeff_digit_for;
+    let mut ops = Vec::new();
+    let disc = match r.below(6) {
+        0 => *r.pick(&[0u64, 255, 256, 1023, 1024, 3840, 4095]),
+        1 => r.range(4096, 65535), // out of the 12-bit range: the encoder may panic (not a decoder)
+        _ => r.below(4096),
+    };
+    let pw = match r.below(8) {
+        0 => *r.pick(&[0u64, 1, 16383, 16384, 20202021, 99999998, (1 << 27) - 1]),
+        1 => r.range(1 << 27, u32::MAX as u64), // out of the 27-bit range
+        _ => r.below(1 << 27),
+    };
+    out.stat(if disc < 4096 && pw < (1 << 27) { "manual_rt_legal" } else { "manual_rt_out_of_range" }, 1);
+    ops.push(format!("rt {} {}", disc, pw));
+    let code = manual::enc((disc & 0xfff) as u16, (pw & ((1 << 27) - 1)) as u32);
+    let base = unhex(&code);
+    if base.len() != 11 {
+        return ops;
+    }
+    for _ in 0..5 {
+        let mut t = base.clone();
+        match r.below(10) {
+            0 => {
+                out.stat("manual_subst_one_digit", 1);
+                let i = r.below(11) as usize;
+                let old = t[i];
+                loop {
+                    let d = b'0' + r.below(10) as u8;
+                    if d != old {
+                        t[i] = d;
+                        break;
+                    }
+                }
+            }
+            1 => {
+                out.stat("manual_bad_check_digit", 1);
+                let old = t[10];
+                t[10] = b'0' + ((old - b'0' + 1 + r.below(9) as u8) % 10);
+            }
+            2 => {
+                out.stat("manual_transpose", 1);
+                let i = r.below(10) as usize;
+                t.swap(i, i + 1);
+            }
+            3 => {
+                out.stat("manual_pretty", 1);
+                let mut p = Vec::new();
+                for (i, c) in t.iter().enumerate() {
+                    if i == 4 || i == 8 {
+                        p.push(*r.pick(&[b'-', b' ']));
+                    }
+                    p.push(*c);
+                }
+                t = p;
+            }
+            4 => {
+                out.stat("manual_wrong_length", 1);
+                let k = *r.pick(&[0usize, 1, 10, 12, 20, 22, 30]);
+                t = (0..k).map(|_| b'0' + r.below(10) as u8).collect();
+            }
+            5 => {
+                out.stat("manual_nondigit", 1);
+                let i = r.below(11) as usize;
+                t[i] = *r.pick(&[b'X', b'a', b'/', b':', b'+', b'.', 0x7f]);
+            }
+            6 => {
+                out.stat("manual_random_11", 1);
+                t = (0..11).map(|_| b'0' + r.below(10) as u8).collect();
+            }
+            7 => {
+                out.stat("manual_random_21", 1);
+                t = (0..21).map(|_| b'0' + r.below(10) as u8).collect();
+                if r.chance(1, 2) {
+                    t[0] = b'4' + r.below(4) as u8;
+                }
+            }
+            8 => {
+                out.stat("manual_unicode", 1);
+                let mut st = String::from_utf8_lossy(&t).to_string();
+                let i = r.below(11) as usize;
+                st.insert(i, *r.pick(&['٣', '１', '∞', 'é']));
+                t = st.into_bytes();
+            }
+            _ => {
+                out.stat("manual_first_digit", 1);
+                t[0] = b'0' + r.below(10) as u8;
+            }
+        }
+        ops.push(format!("dec {}", hex(&t)));
+    }
+    ops
+}
+
+fn gen_plain(r: &mut Rng, out: &mut Out) -> Vec<String> {
+    let f = r.below(8);
+    let sf = (r.below(16) as u64 & 1) | ((r.below(8)) << 5);
+    out.stat(&format!("plain_flags_{}", f), 1);
+    let canon = r.chance(2, 3);
+    let src = if canon && f & 4 == 0 { 0 } else { edge(r, 64) };
+    let dst = if canon && (f & 3 == 0 || f & 3 == 3) {
+        0
+    } else if canon && f & 3 == 2 {
+        edge(r, 16)
+    } else {
+        edge(r, 64)
+    };
+    let exn = r.range(0, 6) as usize;
+    let extra = if r.chance(1, 2) { r.bytes(exn) } else { vec![] };
+    let rt = if r.chance(1, 12) {
+        out.stat("plain_small_cap", 1);
+        format!("rt {} {} {} {} {} {} - {}", f, edge(r, 16), sf, edge(r, 32), src, dst, r.below(26))
+    } else {
+        format!("rt {} {} {} {} {} {} {}", f, edge(r, 16), sf, edge(r, 32), src, dst, hex(&extra))
+    };
+    let mut ops = rt_and_mutations(r, "plainhdr", rt, 4, out);
+    if r.chance(1, 3) {
+        let src = if r.chance(1, 2) { "-".to_string() } else { edge(r, 64).to_string() };
+        ops.push(format!("set {} {} {}", src, r.pick(&["u", "g", "n"]), edge(r, 64)));
+    }
+    if r.chance(1, 3) {
+        out.stat("plain_arbitrary", 1);
+        let n = r.range(0, 28) as usize;
+        ops.push(format!("dec {}", hex(&r.bytes(n))));
+    }
+    ops
+}
+
+fn gen_proto(r: &mut Rng, out: &mut Out) -> Vec<String> {
+    let f = r.below(32);
+    out.stat(&format!("proto_flags_va_{}", (f >> 4) * 2 + ((f >> 1) & 1)), 1);
+    let canon = r.chance(2, 3);
+    let ven = if canon && f & 0x10 == 0 { 0 } else { edge(r, 16) };
+    let ack = if canon && f & 0x02 == 0 { 0 } else { edge(r, 32) };
+    let exn = r.range(0, 6) as usize;
+    let extra = if r.chance(1, 2) { r.bytes(exn) } else { vec![] };
+    let rt = if r.chance(1, 12) {
+        out.stat("proto_small_cap", 1);
+        format!("rt {} {} {} {} {} {} - {}", edge(r, 16), f, edge(r, 16), edge(r, 8), ven, ack, r.below(12))
+    } else {
+        format!("rt {} {} {} {} {} {} {}", edge(r, 16), f, edge(r, 16), edge(r, 8), ven, ack, hex(&extra))
+    };
+    let mut ops = rt_and_mutations(r, "protohdr", rt, 4, out);
+    if r.chance(1, 3) {
+        out.stat("proto_arbitrary", 1);
+        let n = r.range(0, 14) as usize;
+        ops.push(format!("dec {}", hex(&r.bytes(n))));
+    }
+    ops
+}
+
+fn gen_status(r: &mut Rng, out: &mut Out) -> Vec<String> {
+    let n = *r.pick(&[0usize, 0, 1, 2, 7, 32, 100]);
+    let data = r.bytes(n);
+    let rt = if r.chance(1, 12) {
+        out.stat("status_small_cap", 1);
+        format!("rt {} {} {} {} {}", r.below(17), edge(r, 32), edge(r, 16), hex(&data), r.below(8 + n as u64))
+    } else {
+        format!("rt {} {} {} {}", r.below(17), edge(r, 32), edge(r, 16), hex(&data))
+    };
+    let mut ops = rt_and_mutations(r, "status", rt, 4, out);
+    if r.chance(1, 2) {
+        out.stat("status_arbitrary", 1);
+        let n = r.range(0, 12) as usize;
+        let mut b = r.bytes(n);
+        if n >= 2 && r.chance(1, 2) {
+            b[0] = r.range(15, 18) as u8;
+            b[1] = 0;
+        }
+        ops.push(format!("dec {}", hex(&b)));
+    }
+    ops
+}
+
+fn gen_rbuf(r: &mut Rng, _out: &mut Out) -> Vec<String> {
+    let n = r.range(0, 24) as usize;
+    let mut ops = vec![format!("new {}", hex(&r.bytes(n)))];
+    for _ in 0..r.range(1, 10) {
+        ops.push(match r.below(8) {
+            0 | 1 => "u8".to_string(),
+            2 => "u16".to_string(),
+            3 => "u32".to_string(),
+            4 => "u64".to_string(),
+            5 | 6 => format!("tail {}", r.below(10)),
+            _ => "slice".to_string(),
+        });
+    }
+    ops.push("slice".into());
+    ops
+}
+
+fn gen_wbuf(r: &mut Rng, _out: &mut Out) -> Vec<String> {
+    let n = r.range(0, 32);
+    let mut ops = vec![format!("new {}", n)];
+    if r.chance(2, 3) {
+        ops.push(format!("reserve {}", r.below(n + 3)));
+    }
+    for _ in 0..r.range(1, 10) {
+        ops.push(match r.below(9) {
+            0 => format!("u8 {}", edge(r, 8)),
+            1 => format!("u16 {}", edge(r, 16)),
+            2 => format!("u32 {}", edge(r, 32)),
+            3 => format!("u64 {}", edge(r, 64)),
+            4 | 5 => {
+                let k = r.below(7) as usize;
+                format!("append {}", hex(&r.bytes(k)))
+            }
+            6 => {
+                let k = r.below(7) as usize;
+                format!("prepend {}", hex(&r.bytes(k)))
+            }
+            7 => format!("reserve {}", r.below(8)),
+            _ => "slice".to_string(),
+        });
+    }
+    ops.push("slice".into());
+    ops
+}
+
+pub fn gen(a: &Args) -> String {
+    install_hook();
+    // `Rng::new` is linear in the seed (seed k+1 = seed k advanced by one step): re-seed from a mixed
+    // output so that different VERIF_SEEDs give unrelated case sequences
+    let mut r = Rng::new(Rng::new(a.seed).next() ^ 0xC17C_17C1_7C17_C17C);
+    let mut out = Out::default();
+    out.buf.push_str("#rule one case = one generated structure of one codec: `rt` = structure -> real encoder -> real decoder (bytes and decoded fields printed), followed by `dec` ops on the same bytes, on single-bit/byte mutations, truncations, extensions and on arbitrary strings; boundary field values (0,1,max,2^k) and every flag subset are enumerated by the generator; non-trivial = the ops of the case produced at least two different answers (e.g. an accepted and a refused decode); distinct = by operation list\n");
+    let scale: u64 = if a.thorough { 12 } else { 1 };
+    let plan: Vec<(&str, u64)> = vec![
+        ("base38", 1500),
+        ("manual", 1500),
+        ("plainhdr", 1500),
+        ("protohdr", 1200),
+        ("status", 800),
+        ("rbuf", 500),
+        ("wbuf", 500),
+    ];
+    let mut id = 0u64;
+    for (kind, n) in plan {
+        for _ in 0..n * scale {
+            let mut cr = r.fork();
+            let ops = match kind {
+                "base38" => gen_base38(&mut cr, &mut out),
+                "manual" => gen_manual(&mut cr, &mut out),
+                "plainhdr" => gen_plain(&mut cr, &mut out),
+                "protohdr" => gen_proto(&mut cr, &mut out),
+                "status" => gen_status(&mut cr, &mut out),
+                "rbuf" => gen_rbuf(&mut cr, &mut out),
+                _ => gen_wbuf(&mut cr, &mut out),
+            };
+            out.stat(&format!("kind_{}", kind), 1);
+            emit_case(&mut out, id, kind, ops);
+            id += 1;
+        }
+    }
+    more::gen(&mut r, &mut out, a.thorough, &mut id);
+    unproved::gen(&mut r, &mut out, a.thorough, &mut id);
+    out.finish()
+}
+
+pub fn emit_case(out: &mut Out, id: u64, kind: &str, ops: Vec<String>) {
+    run_case(out, &Case { id, kind: kind.to_string(), ops });
+}
+
+pub fn replay(a: &Args) -> String {
+    install_hook();
+    let text = std::fs::read_to_string(a.input.as_ref().expect("--in")).expect("read input");
+    let mut out = Out::default();
+    for c in parse_cases(&text) {
+        run_case(&mut out, &c);
+    }
+    out.finish()
 }
